@@ -277,3 +277,15 @@ func init() {
 	addMutant(Mutant{Name: "c16-parse-any-base", Property: "C16", File: "ytypes/util_types.go",
 		Old: "u, err := strconv.ParseUint(s, 10, int(t.Size())*8)", New: "u, err := strconv.ParseUint(s, 0, int(t.Size())*8)", Expect: "ParseUint#"})
 }
+
+func init() {
+	// R-EMPTY-LEAFLIST (C02, C03)
+	addMutant(Mutant{Name: "c02-empty-leaflist-emitted", Property: "C02", File: "ygot/render.go",
+		Old: "\t\t\tif fval.Len() == 0 && fval.Type().Name() != BinaryTypeName {", New: "\t\t\tif fval.Len() == 0 && fval.Type().Name() != BinaryTypeName && preferShadowPath {", Expect: "leaf-list-emission"})
+	addMutant(Mutant{Name: "c02-empty-binary-dropped", Property: "C02", File: "ygot/render.go",
+		Old: "\t\t\tif fval.Len() == 0 && fval.Type().Name() != BinaryTypeName {", New: "\t\t\tif fval.Len() == 0 {", Expect: "findUpdatedLeaves:continue"})
+	addMutant(Mutant{Name: "c03-empty-leaflist-recorded", Property: "C03", File: "ygot/diff.go",
+		Old: "if ni.FieldValue.Kind() == reflect.Slice && ni.FieldValue.Len() == 0 && ni.FieldValue.Type().Name() != BinaryTypeName {", New: "if ni.FieldValue.Kind() == reflect.Slice && ni.FieldValue.Len() == 0 && ni.FieldValue.Type().Name() != BinaryTypeName && orderedMapAsLeaf {", Expect: "leaf-list-emission"})
+	addMutant(Mutant{Name: "c03-decoder-accepts-then-writers-free", Property: "C03", File: "ygot/diff.go",
+		Old: "if ni.FieldValue.Kind() == reflect.Slice && ni.FieldValue.Len() == 0 && ni.FieldValue.Type().Name() != BinaryTypeName {", New: "if ni.FieldValue.Kind() == reflect.Slice && ni.FieldValue.Len() == 0 {", Expect: "skip#"})
+}
